@@ -14,6 +14,26 @@ const (
 	FormValueRedirect = "redir"
 )
 
+// IsSafeRedirectTarget reports whether a client supplied redirection target
+// (see FormValueRedirect) keeps the browser on this site. Only absolute paths
+// are safe: an absolute URL, a scheme-relative reference ("//host") or one of
+// the spellings browsers treat like it ("/\host", or with tabs and newlines,
+// which browsers strip before they parse a URL) sends the user elsewhere.
+func IsSafeRedirectTarget(target string) bool {
+	if len(target) == 0 || target[0] != '/' {
+		return false
+	}
+	if len(target) > 1 && (target[1] == '/' || target[1] == '\\') {
+		return false
+	}
+	for i := 0; i < len(target); i++ {
+		if target[i] < 0x20 || target[i] == 0x7f {
+			return false
+		}
+	}
+	return true
+}
+
 // HTTPResponder knows how to respond to an HTTP request
 // Must consider:
 // - Flash messages
